@@ -5,9 +5,12 @@ pub mod c01;
 pub mod c02;
 pub mod c03;
 pub mod c04;
+pub mod c05;
+pub mod c06;
 pub mod c07;
 pub mod c09;
 pub mod c10;
+pub mod c19;
 pub mod c20;
 
 use crate::report::{Cfg, Report};
@@ -18,9 +21,12 @@ pub fn dispatch(prop: &str, cfg: &Cfg) -> Option<Report> {
         "C02" => c02::run(cfg),
         "C03" => c03::run(cfg),
         "C04" => c04::run(cfg),
+        "C05" => c05::run(cfg),
+        "C06" => c06::run(cfg),
         "C07" => c07::run(cfg),
         "C09" => c09::run(cfg),
         "C10" => c10::run(cfg),
+        "C19" => c19::run(cfg),
         "C20" => c20::run(cfg),
         _ => return None,
     })
